@@ -21,6 +21,6 @@ pub fn add(v: &mut Vec<sut::Cfg>) {
     toy_cfg!(v, U64, U4, "qt", add_ctr32, add_ctr64, add_ctr128);
     toy_cfg!(v, U255, U3, "qt");
     // real ciphers needed by the oracle self-test of every run ('o'); part of the thorough set
-    real_cfg!(v, aes::Aes128, "Aes128", "ot", add_ctr32, add_ctr64, add_ctr128, add_belt);
+    real_cfg!(v, aes::Aes128, "Aes128", "qot", add_ctr32, add_ctr64, add_ctr128, add_belt);
     real_cfg!(v, belt_block::BeltBlock, "BeltBlock", "ot", add_ctr32, add_ctr64, add_ctr128, add_belt);
 }
